@@ -474,7 +474,7 @@ pub fn gen_gates(rng: &mut Rng, big: bool) -> u16 {
         3 => 1840,
         4 => 1839,
         5 => 920,
-        6 if big => *rng.pick(&[1841u16, 4096, 32767, 32768, 65535]),
+        6 if big => *rng.pick(&[1841u16, 2048, 4095, 4096, 4097, 8192, 12288, 32767, 32768, 65535]),
         7 | 8 => rng.range(3, 64) as u16,
         _ => rng.range(3, 1840) as u16,
     }
